@@ -59,6 +59,7 @@ type loopInfo struct {
 // Enc is the per-function encoder.
 type Enc struct {
 	loopInvCache map[*loopInfo][]Clause
+	extraBinds   map[string]specVal // names of a vanished helper's parameters, bound when its loop invariants are adopted
 	topFn *ssa.Function // the function under verification (e.fn changes while a callee is inlined)
 	inl        string // name prefix of the values of the function currently being inlined ("" at top level)
 	inlineSeq  int
